@@ -218,6 +218,9 @@ MUTANTS = [
     ('C16', 'premade_lib.py', '  if ((isinstance(model_config, configs.CalibratedLatticeEnsembleConfig) or\n       isinstance(model_config, configs.CalibratedLatticeConfig)) and\n      model_config.parameterization',
      '  if ((isinstance(model_config, configs.CalibratedLatticeConfig)) and\n      model_config.parameterization', 'V12',
      'Kronecker-factored ensembles no longer reach their validator'),
+    ('C01', 'lattice_lib.py', '    layers = _unstack_nd(trust_projection, [main_dim, cond_dim])',
+     '    layers = _unstack_nd(weights, [main_dim, cond_dim])', 'X11',
+     'every Edgeworth trust projected from the un-projected weights'),
     # ---- neutral variants (must stay silent)
     ('C08', 'lattice_lib.py', '    average = (layers[i] + layers[i + 1]) / 2.0', '    average = 0.5 * (layers[i] + layers[i + 1])',
      None, 'N: average written as 0.5 * sum'),
